@@ -32,6 +32,9 @@ def main():
             for v in c["violations"][:2]:
                 parts = dict(p.split("=", 1) for p in v.split(" ") if "=" in p and p.split("=")[0] in ("clause", "fingerprint"))
                 fps.append(f"{parts.get('clause')} : {parts.get('fingerprint')}")
+        if m.get("status"):
+            cell = ["n/a: " + m["status"][:150]]
+            fps = []
         print(f"| `{n}` | {m['property']} | {m['needs'][:160]} | {tests} | {demo} | {'; '.join(cell)} | {'; '.join(dict.fromkeys(fps))} |")
     rp = os.path.join(VERIF, "sensitivity", "RESULTS.json")
     if os.path.exists(rp):
